@@ -242,7 +242,25 @@ func (i *interpreter) convAny(dst, src types.Type, x value) value {
 			if ud.Elem().Underlying().(*types.Basic).Kind() == types.Byte {
 				return append([]value(nil), x...)
 			}
-			unsup("[]rune of symbolic string")
+			// []rune(s): defined here for strings whose symbolic bytes are known to be ASCII (one rune per byte)
+			out := make([]value, len(x))
+			for k, b := range x {
+				switch b := b.(type) {
+				case uint8:
+					if b >= 0x80 {
+						unsup("[]rune of a symbolic string with non-ASCII bytes")
+					}
+					out[k] = int32(b)
+				case sym:
+					if b.t.Hi == nil || b.t.Hi.Int64() >= 0x80 {
+						unsup("[]rune of a symbolic string whose bytes are not known to be ASCII")
+					}
+					out[k] = i.symConv(types.Typ[types.Int32], b)
+				default:
+					unsup("[]rune of symbolic string: unexpected byte %T", b)
+				}
+			}
+			return out
 		case *types.Basic:
 			if ud.Kind() == types.String {
 				return x
